@@ -136,7 +136,7 @@ def refTerms (I : MinorInst) (pos : Int) : List (Rat × NVar) :=
   I.slots.flatMap fun cs =>
     if !I.hasCov cs.1 pos then []
     else match presentAt cs.1 pos with
-      | p :: _ => [one (.A cs.2), neg (.MULK p cs.2)]
+      | p :: _ => [one (.A cs.2), neg (.MULK p cs.2)] ++ (I.newAt cs.1 pos).map fun m => neg (.MULN m cs.2)
       | [] => one (.A cs.2) :: (I.newAt cs.1 pos).map fun m => neg (.MULN m cs.2)
 
 def consCONE (I : MinorInst) : List (LinCon NVar) :=
